@@ -189,11 +189,13 @@ structure Inv (P : Nat) (d : Dec) : Prop where
   tables_n  : d.tables.length ≤ 2
   tables_le : totalLen d.tables ≤ 128
   hdr_some  : d.fragSize ≠ 0 → d.hdr.isSome = true
+  count     : d.fragments.length ≤ d.fragSize + 1   -- every fragment but the first carries data
 
-theorem c08_inv_init (P : Nat) : Inv P {} := ⟨rfl, by simp; omega, by simp, by simp, by simp⟩
+theorem c08_inv_init (P : Nat) : Inv P {} := ⟨rfl, by simp; omega, by simp, by simp, by simp, by simp⟩
 
 theorem inv_resetFragments (P : Nat) (d : Dec) (hi : Inv P d) : Inv P d.resetFragments :=
-  ⟨rfl, by simp [Dec.resetFragments]; omega, hi.tables_n, hi.tables_le, by simp [Dec.resetFragments]⟩
+  ⟨rfl, by simp [Dec.resetFragments]; omega, hi.tables_n, hi.tables_le, by simp [Dec.resetFragments],
+   by simp [Dec.resetFragments]⟩
 
 theorem qtParse_tables (b : Bytes) (ts : List Bytes) (n : Nat) (h : qtParse b = some (ts, n)) :
     ts.length ≤ 2 ∧ totalLen ts ≤ 128 := by
@@ -226,7 +228,8 @@ theorem store_inv (P : Nat) (d : Dec) (q : UInt8) (off : Nat) (jh : JHdr) (body 
   intro r hr
   rw [store] at hr
   have hreset1 : Inv P { d.resetFragments with firstRecv := true } :=
-    ⟨rfl, by simp [Dec.resetFragments]; omega, hi.tables_n, hi.tables_le, by simp [Dec.resetFragments]⟩
+    ⟨rfl, by simp [Dec.resetFragments]; omega, hi.tables_n, hi.tables_le, by simp [Dec.resetFragments],
+     by simp [Dec.resetFragments]⟩
   by_cases h0 : off = 0
   · rw [if_pos h0] at hr
     dsimp only at hr
@@ -245,14 +248,14 @@ theorem store_inv (P : Nat) (d : Dec) (q : UInt8) (off : Nat) (jh : JHdr) (body 
         refine ⟨fun d' h => ?_, fun d' x h => by cases h⟩
         simp only [Except.ok.injEq] at h
         rw [← h]
-        refine ⟨by simp [Dec.resetFragments], ?_, h1, h2, by simp⟩
+        refine ⟨by simp [Dec.resetFragments], ?_, h1, h2, by simp, by simp [Dec.resetFragments]⟩
         simp only [List.length_drop]; omega
     · rw [if_neg hq] at hr; subst hr
       obtain ⟨h1, h2⟩ := makeQuantizationTables_tables q
       refine ⟨fun d' h => ?_, fun d' x h => by cases h⟩
       simp only [Except.ok.injEq] at h
       rw [← h]
-      exact ⟨by simp [Dec.resetFragments], by simp only; omega, h1, h2, by simp⟩
+      exact ⟨by simp [Dec.resetFragments], by simp only; omega, h1, h2, by simp, by simp [Dec.resetFragments]⟩
   · rw [if_neg h0] at hr
     by_cases h1 : off ≠ d.fragSize
     · rw [if_pos h1] at hr
@@ -265,14 +268,23 @@ theorem store_inv (P : Nat) (d : Dec) (q : UInt8) (off : Nat) (jh : JHdr) (body 
         refine ⟨fun d' h => (by cases h), fun d' x h => ?_⟩
         simp only [Except.error.injEq, Prod.mk.injEq] at h
         rw [← h.1]; exact inv_resetFragments P d hi
-    · rw [if_neg h1] at hr; subst hr
+    · rw [if_neg h1] at hr
       simp only [ne_eq, Decidable.not_not] at h1
-      refine ⟨fun d' h => ?_, fun d' x h => by cases h⟩
-      simp only [Except.ok.injEq] at h
-      rw [← h]
-      refine ⟨by simp [hi.frag_eq], by simp only; omega, hi.tables_n, hi.tables_le, ?_⟩
-      intro _
-      exact hi.hdr_some (by omega)
+      by_cases hz : body.length = 0
+      · rw [if_pos hz] at hr; subst hr
+        refine ⟨fun d' h => (by cases h), fun d' x h => ?_⟩
+        simp only [Except.error.injEq, Prod.mk.injEq] at h
+        rw [← h.1]; exact inv_resetFragments P d hi
+      · rw [if_neg hz] at hr; subst hr
+        refine ⟨fun d' h => ?_, fun d' x h => by cases h⟩
+        simp only [Except.ok.injEq] at h
+        rw [← h]
+        refine ⟨by simp [hi.frag_eq], by simp only; omega, hi.tables_n, hi.tables_le, ?_, ?_⟩
+        · intro _
+          exact hi.hdr_some (by omega)
+        · have := hi.count
+          simp only [List.length_append, List.length_cons, List.length_nil]
+          omega
 
 theorem finish_inv (P : Nat) (d : Dec) (m : Bool) (hi : Inv P d) : Inv P (finish d m).1 := by
   unfold finish
@@ -322,6 +334,13 @@ theorem c08_retained_le (P : Nat) (d : Dec) (hi : Inv P d) : retained d ≤ 2 ^ 
 theorem c08_hdr_present (P : Nat) (d : Dec) (hi : Inv P d) (h2 : 2 ≤ d.fragSize) : d.hdr.isSome = true :=
   hi.hdr_some (by omega)
 
+/-- **C08 fragment count**: the fragment list never holds more entries than bytes plus one (every
+fragment after the first carries data — header-only packets are refused since cfdb263), so the list
+itself, and the packet buffers it pins, are bounded by the same 2^24 + one packet. -/
+theorem c08_fragment_count_le (P : Nat) (d : Dec) (hi : Inv P d) : d.fragments.length ≤ 2 ^ 24 + P := by
+  have := hi.count; have := hi.frag_lt
+  omega
+
 theorem dqtBody_length (id : Nat) (ts : List Bytes) : (dqtBody id ts).length = ts.length + totalLen ts := by
   induction ts generalizing id with
   | nil => simp [dqtBody]
@@ -356,7 +375,10 @@ theorem store_error_not_ok (d : Dec) (q : UInt8) (off : Nat) (jh : JHdr) (body :
       by_cases h2 : (!d.firstRecv) = true
       · rw [if_pos h2] at h; simp only [Except.error.injEq] at h; rw [← h]; simp
       · rw [if_neg h2] at h; simp only [Except.error.injEq] at h; rw [← h]; simp
-    · rw [if_neg h1] at h; cases h
+    · rw [if_neg h1] at h
+      by_cases hz : body.length = 0
+      · rw [if_pos hz] at h; simp only [Except.error.injEq] at h; rw [← h]; simp
+      · rw [if_neg hz] at h; cases h
 
 /-- **C08 output bound**: a returned image is at most 2^24 + one packet of entropy-coded data plus
 the rebuilt headers (< 1 KiB). -/
@@ -473,7 +495,8 @@ theorem run_cont (c : EncCfg) (j : Jpeg) (hmax : 8 < c.max)
         = .ok { d with fragSize := d.fragSize + (rest.take rem).length, fragments := d.fragments ++ [rest.take rem] } := by
       have h0 : ¬ off = 0 := by omega
       have h1 : ¬ off ≠ d.fragSize := by simp [hd]
-      simp only [store, h0, if_false, h1]
+      have h2 : ¬ (rest.take rem).length = 0 := by omega
+      simp only [store, h0, if_false, h1, h2]
     by_cases hrest : (rest.drop rem).isEmpty = true
     · rw [if_pos hrest] at hem
       simp only [Option.some.injEq] at hem; subst hem
@@ -710,6 +733,6 @@ example : ((encode exEnc exJpeg).2.map fun ps => ps.map fun p => (p.seq, p.marke
     = some [(65535, false, 150), (0, true, 28)] := by decide
 /-- a dirty state satisfies the invariant -/
 example : Inv 1500 { firstRecv := true, fragments := [[1, 2], [3]], fragSize := 3, hdr := some { typ := 0, width := 8, height := 8 }, tables := [exTable 1] } :=
-  ⟨by decide, by decide, by decide, by decide, by decide⟩
+  ⟨by decide, by decide, by decide, by decide, by decide, by decide⟩
 
 end Rtsp.Codec.Mjpeg
